@@ -28,6 +28,7 @@ func runC01(c *Ctx) {
 		return
 	}
 	c01Recover(c, entry, ro)
+	c01PostRecover(c)
 	c01DiagImpliesError(c, entry, ro)
 	c01EOF(c, ro, "C01.eof-check")
 	c01Placeholder(c, ro)
@@ -189,6 +190,33 @@ func c01DiagImpliesError(c *Ctx, entry *ssa.Function, ro *ParserRoles) {
 		})
 	}
 	c.R.Check(rule, "recorder-appends", "-", appends, "the diagnostic recorder must append to the parser's diagnostic list")
+	if sink != nil && appends && len(sink.Blocks) > 0 {
+		// the first diagnostic is never suppressed: with the diagnostic list empty every path appends.
+		// (De-duplication may only compare against a diagnostic that exists.)
+		emptyList := func(v ssa.Value) (constant.Value, bool) {
+			call, ok := v.(*ssa.Call)
+			if !ok || !isBuiltinCall(call, "len") || len(call.Call.Args) != 1 {
+				return nil, false
+			}
+			for _, rt := range plainOrigins.Roots(call.Call.Args[0]) {
+				if len(rt.Path) >= 1 && rt.Path[len(rt.Path)-1] == "parseDiagnostics" {
+					return constant.MakeInt64(0), true
+				}
+			}
+			return nil, false
+		}
+		r := c.foldWith(sink, 0, emptyList)
+		isAppend := func(in ssa.Instruction) bool {
+			st, ok := in.(*ssa.Store)
+			if !ok {
+				return false
+			}
+			fa, isFA := st.Addr.(*ssa.FieldAddr)
+			return isFA && fieldName(fa) == "parseDiagnostics"
+		}
+		skip := pathExistsIn(r, nil, isReturn, isAppend)
+		c.R.Check(rule, "first-diagnostic-recorded", c.P.Pos(sink.Pos()), !skip, "with no diagnostic recorded yet there is a path through the recorder that does not append: the first error of a parse can be dropped (e.g. suppressed by comparing with a zero-valued 'last position')")
+	}
 	c.R.Floor(rule, 4)
 }
 
